@@ -78,6 +78,37 @@ def gen_cases(ctx, per_method):
             chunk = r.choice([0, 0, 0, 1, 2, 3])
             out.append(Case(S.dec_op(meth, declen, chunk, r.choice([-1, -1, 0, 1]), sched, data),
                             judge=judge(declen), tags=tags))
+    # structured valid streams that drive the ADAPTIVE tables to their extremes (random and mutated streams never do):
+    # -lh1-: every one of the 314 symbols (256 literals, 58 copy lengths), in several orders, so that every slot of the node table -
+    # the last one included - is updated while alone in its frequency group; then skewed tails; serialised by the Lean LZHUF spec
+    descs = []
+    for i in range(6 if per_method < 400 else 40):
+        lits = list(range(256))
+        lens = list(range(3, 61))
+        syms = [("L", b) for b in lits] + [("C", l) for l in lens]
+        mode = i % 3
+        if mode == 0:
+            r.shuffle(syms)
+        elif mode == 1:
+            syms = syms[::-1]
+        cmds = []
+        for j, (k_, v) in enumerate(syms):
+            if k_ == "L":
+                cmds.append("L%02x" % v)
+            else:
+                cmds.append("C%d.%d" % (r.randrange(min(64, 1 + j)), v))
+        heavy = r.choice(lits)
+        cmds += ["L%02x" % heavy] * r.choice([0, 50, 400]) + [cmds[r.randrange(len(cmds))] for _ in range(r.choice([0, 20, 300]))]
+        descs.append(",".join(cmds))
+    ser, _ = core.run_lines_parallel([core.lhv_path()], ["lh1ser " + d for d in descs])
+    for d, hx in zip(descs, ser):
+        hexs = hx.split()[-1] if hx.startswith("ok") else hx
+        if hexs in ("invalid", "bad-op") or hexs.startswith(("FAULT", "error")):
+            continue
+        data = b"" if hexs == "-" else bytes.fromhex(hexs)
+        for declen in (r.choice([300, 2000]), 70000):
+            out.append(Case(S.dec_op("lh1", declen, r.choice([0, 1, 3]), -1, S.schedule(r, min(declen, 20000)), data), judge=judge(declen),
+                            tags={"m=lh1", "all-symbols"}))
     if ctx.tier == "thorough" and not os.environ.get("VERIF_NO_FUZZ"):
         out += fuzz_cases(ctx, int(os.environ.get("VERIF_FUZZ_SECONDS", "120")))
     return out
